@@ -211,6 +211,11 @@ func simple(kind, p1, p2 string, flag int, do func() error) error {
 	return err
 }
 
+// ReadOnlyOp lets another facade of the same build (path/filepath) put an operation that only
+// reads the disk through the same interception as the os calls: traced, a yield point, a
+// place where an error can be injected.
+func ReadOnlyOp(kind, path string, do func() error) error { return simple(kind, path, "", 0, do) }
+
 func Remove(name string) error {
 	return simple("remove", name, "", 0, func() error { return os.Remove(name) })
 }
